@@ -33,7 +33,7 @@ def jobs(tier):
                        functions=["vnacal_free", "_vnacal_calibration_free", "_vnacal_teardown_parameter_collection"],
                        bound="calibration slots: allocation %d, occupancy symbolic" % a, timeout=300))
     for a, live in ((3, 3), (8, 4)) if tier == "quick" else ((3, 3), (8, 4), (8, 5)):
-        d = ["-DVC_PRM_ALLOC=%d" % a, "-DVC_PRM_LIVE_MAX=%d" % live,
+        d = ["-DVERIF_BUILTIN_MEM", "-DVC_PRM_ALLOC=%d" % a, "-DVC_PRM_LIVE_MAX=%d" % live,
              "-DVERIF_CUT_rfi_after_search=__CPROVER_assume(0)"]
         for e, fns in (("h_alloc_parameter", ["_vnacal_alloc_parameter"]),
                        ("h_delete_parameter", ["vnacal_delete_parameter", "_vnacal_release_parameter",
@@ -42,6 +42,8 @@ def jobs(tier):
                                        "_vnacal_free_parameter"]),
                        ("h_make_parameter", ["vnacal_make_scalar_parameter", "vnacal_make_unknown_parameter",
                                              "vnacal_get_parameter_value", "_vnacal_hold_parameter"])):
+            if tier == "quick" and a == 8 and e in ("h_alloc_parameter", "h_make_parameter"):
+                continue        # 2-7 minutes each: thorough tier only
             J.append(V.Job("%s.alloc%d_live%d" % (e[2:], a, live), H, e, SRCS, defines=d,
                            unwind=(10 if a == 3 else (18 if live == a else 10)),
                            union_struct=True, kind="bounded", canary=(a == 8 and live == 4), functions=fns,
